@@ -305,6 +305,23 @@ def acct_seq_scenarios(rng, tag, n):
     return out
 
 
+def big_record_scenarios(rng, tag, n):
+    """accounting requests near the size limit of a packet whose record is several times larger than the request
+    (characters the JSON encoder writes as six: < > &; as two: quotes, backslashes, control characters), sent in clear"""
+    cfg = base_cfg(rng, tag)
+    shapes = [(90, 255, "<"), (255, 250, "&"), (255, 255, "a"), (130, 255, '"'), (87, 255, ">"), (200, 255, "\\"), (255, 200, "\x01"),
+              (100, 255, "<&>"), (255, 255, "%"), (64, 255, "<")]
+    out = []
+    for i in range(n):
+        na, ln, chars = shapes[i % len(shapes)]
+        args = [[ord(chars[(j + k) % len(chars)]) for k in range(ln)] for j in range(na)]
+        u = rng.choice(["alice", "frank"])
+        script = [(acct(u, rng.choice([2, 4]), args), 0, [])]
+        steps = session_steps(1, i % 4, script, fl=1) + session_steps(1, (i + 1) % 4, [(acct(u, 2, [list(b"task_id=1")]), 0, [])], fl=1)
+        out.append({"id": "bigrec-%d" % i, "cfg": cfg, "conns": [{"c": 1, "addr": "10.1.0.5"}], "steps": steps, "iso": False, "log": False})
+    return out
+
+
 def repeated_rule_scenarios(rng, tag, n):
     """command rules that are met again and again by the same request: a rule whose only pattern does not compile (the
     request is refused every time), and rules whose verdict depends on a word being there twice"""
@@ -554,8 +571,34 @@ def scenario(rng, idx, prop, tag):
             junk = [0xc0 | rng.randint(0, 1), rng.randint(1, 3), rng.choice([1, 3, 255]), rng.choice([0, 1]), 9, 9, 9, 9, 0, 0, 0, len(body)] + body
         p = raw(junk); p["k"] = "bytes"
         steps.insert(rng.randint(0, len(steps)), {"c": 1, "sid": 0, "seq": 0, "ty": 0, "min": 0, "fl": 0, "p": p, "pws": []})
-    return {"id": "%s-%d" % (prop.lower(), idx), "cfg": cfg, "conns": conns, "steps": steps,
-            "iso": prop == "C09" or rng.random() < 0.1, "log": prop in ("C18",) or rng.random() < 0.15}
+    sc = {"id": "%s-%d" % (prop.lower(), idx), "cfg": cfg, "conns": conns, "steps": steps,
+          "iso": prop == "C09" or rng.random() < 0.1, "log": prop in ("C18",) or rng.random() < 0.15}
+    spanify(sc, prop, idx, tag)
+    return sc
+
+
+SPAN_SHARE = {"C06": 0.12, "C07": 0.15, "C09": 0.12, "C10": 0.08, "C12": 0.08, "C14": 0.15, "C18": 0.08, "C11": 0.05}
+
+
+def spanify(sc, prop, idx, tag):
+    """A share of the scenarios runs with the SPAN handler on one or both scopes (`all loadable configurations`): the
+    listed predicates stay as they are, Span.tla states what the mirror destination must receive (divergence only).
+    Uses its own random stream so that the scenarios themselves are the ones generated before this class existed."""
+    r2 = random.Random("span-%s-%d-%s" % (prop, idx, tag))
+    if r2.random() >= SPAN_SHARE.get(prop, 0):
+        return
+    sc["cfg"] = copy.deepcopy(sc["cfg"])
+    raddrs = sorted({bytes(st["p"]["raddr"], "latin1") if isinstance(st["p"].get("raddr"), str) else bytes(st["p"].get("raddr") or b"")
+                     for st in sc["steps"] if isinstance(st.get("p"), dict)} - {b""})
+    for s in sc["cfg"]["secrets"]:
+        if r2.random() < 0.8:
+            k = r2.random()
+            ra = ""
+            if raddrs and r2.random() < 0.3:
+                ra = r2.choice(raddrs).decode("latin1") if r2.random() < 0.6 else "203.0.113.77"
+            s["span"] = {"dest": "refused" if k < 0.15 else "ok", "pt": r2.choice([0, 0, 0, 1, 2, 3]), "ra": ra,
+                         "sw": r2.choice(["", "", "", "match", "mismatch"])}
+    sc["id"] += "-span"
 
 
 def overlap_c09(rng, tag, n):
@@ -755,6 +798,7 @@ def collect(ctx, prop):
         scen += many_args_scenarios(rng, tag, 40 if quick else 600)
     if prop == "C12":
         scen += overlap_c12(rng, tag, 200 if quick else 4000)
+        scen += big_record_scenarios(rng, tag, 5 if quick else 20)
     if prop == "C10":
         cfg0 = base_cfg(rng, tag)
         sw = start_sweep(cfg0, "s1", tag)
@@ -850,12 +894,19 @@ def collect(ctx, prop):
                     calib[k] = calib.get(k, 0) + int(v)
             divs += [l[:200] for l in rr["out"].splitlines() if l.startswith('<<"DIV"')]
     nsteps = sum(len(s["steps"]) for s in scen)
+    nmir = nmir_data = 0
+    for line in open(tf):
+        if '"e":"mir"' in line:
+            nmir += 1
+            nmir_data += '"b":[]' not in line
+    span = {"scenarios_with_span_handler": sum(1 for s in scen if s["id"].endswith("-span")), "mirror_connections_judged_by_Span_tla": nmir,
+            "of_them_with_octets": nmir_data, "divergences": sum(1 for d in divs if "span" in d)}
     cov = {"states": ctx.tlc_distinct, "transitions": ctx.tlc_states, "traces_validated_against_impl": len(scen),
            "evaluations": len(scen), "distinct_nontrivial": len({json.dumps(s["steps"], sort_keys=True) for s in scen if len(s["steps"]) >= 2}),
            "rule": "scenario = configuration + packets of 1-3 sessions interleaved on 1-2 connections of the real reference server; non-trivial = distinct step list with >= 2 packets",
            "samples": [slim(scen[0]), slim(scen[-1])], "steps": nsteps, "events": stats.get("events"),
            "model_divergences": len(divs), "first_divergences": divs[:5], "other_property_observations": sorted(others), "exhaustive": False,
-           "design_check": mcinfo, "request_reading_conformance": calib}
+           "design_check": mcinfo, "request_reading_conformance": calib, "span_handler": span}
     return cov, ["the abstract configuration in the trace is the one the harness rendered into the real config.ServerConfig (bcrypt hashes at MinCost)",
                      "pattern text and its AST are produced together by the generator (lib/refgen.py render)",
                      "connections are scripted in-memory objects; packets are fed one at a time (quiescence between packets)"], found
